@@ -40,6 +40,17 @@ pub fn free_port() -> u16 {
     l.local_addr().unwrap().port()
 }
 
+/// stderr of child processes goes to <VH_SCRATCH>/child-<tag>.stderr, where the driver looks for sanitizer reports
+pub fn child_stderr(tag: &str) -> std::process::Stdio {
+    match std::env::var("VH_SCRATCH") {
+        Ok(d) => match std::fs::File::create(std::path::Path::new(&d).join(format!("child-{tag}-{}.stderr", std::process::id()))) {
+            Ok(f) => std::process::Stdio::from(f),
+            Err(_) => std::process::Stdio::null(),
+        },
+        Err(_) => std::process::Stdio::null(),
+    }
+}
+
 pub fn spawn_server(subcommand: &str, extra: &[&str]) -> Result<Server, String> {
     use std::os::unix::process::CommandExt;
     for _ in 0..5 {
@@ -49,7 +60,7 @@ pub fn spawn_server(subcommand: &str, extra: &[&str]) -> Result<Server, String> 
         for e in extra.chunks(2) {
             cmd.arg(e[0]).arg(e[1]);
         }
-        cmd.env("OHKAMI_KEEPALIVE_TIMEOUT", "20").stdout(std::process::Stdio::null()).stderr(std::process::Stdio::null());
+        cmd.env("OHKAMI_KEEPALIVE_TIMEOUT", "20").stdout(std::process::Stdio::null()).stderr(child_stderr(&format!("{subcommand}-{port}")));
         unsafe {
             cmd.pre_exec(|| {
                 libc::prctl(libc::PR_SET_PDEATHSIG, libc::SIGKILL);
